@@ -81,7 +81,9 @@ func (s *ogServer) stop() {
 		_ = syscall.Kill(-s.cmd.Process.Pid, syscall.SIGKILL)
 		_, _ = s.cmd.Process.Wait()
 	}
-	_ = os.RemoveAll(s.dir)
+	if os.Getenv("C18_KEEP") == "" {
+		_ = os.RemoveAll(s.dir)
+	}
 }
 
 func startServer(dir string) (*ogServer, error) {
